@@ -674,7 +674,7 @@ class Plucker(SMUserList):
         l1 = self
         if l1 | l2:
             # lines are parallel
-            l = np.cross(l1.w, l1.v - l2.v * np.dot(l1.w, l2.w) / dot(l2.w, l2.w)) / np.linalg.norm(l1.w)
+            l = np.linalg.norm(np.cross(l1.w, l1.v - l2.v * np.dot(l1.w, l2.w) / np.dot(l2.w, l2.w))) / np.dot(l1.w, l1.w)
         else:
             # lines are not parallel
             if abs(l1 * l2) < 10*_eps:
@@ -682,7 +682,7 @@ class Plucker(SMUserList):
                 l = 0
             else:
                 # lines don't intersect, find closest distance
-                l = abs(l1 * l2) / np.linalg.norm(np.cross(l1.w, l2.w))**2
+                l = abs(l1 * l2) / np.linalg.norm(np.cross(l1.uw, l2.uw))
         return l
 
     
@@ -774,7 +774,8 @@ class Plucker(SMUserList):
         left = self
         if isinstance(right, Plucker):
             # reciprocal product
-            return np.dot(left.uw, right.v) + np.dot(right.uw, left.v)
+            # both lines normalised to unit direction, so that zero <=> the lines are coplanar
+            return (np.dot(left.w, right.v) + np.dot(right.w, left.v)) / (np.linalg.norm(left.w) * np.linalg.norm(right.w))
         else:
             raise ValueError('bad arguments')
         
